@@ -143,3 +143,56 @@ func runOptOrder(tape *simrt.Tape, keep bool) simrt.Outcome {
 	return simrt.Outcome{V: viol, LogHash: log.Hash(), LogText: log.Text(), Steps: log.Lines(), Stats: stats, Sig: log.Hash(), NonTriv: true,
 		Sample: map[string]any{"options": names}}
 }
+
+// C18, addresses that need no resolving: the README's own example target is `GET http://:80` (no host: the local
+// system), and a URL may carry an IP literal. With the DNS cache in force (the command's default, -dns-ttl=0)
+// a dial to such an address has nothing to look up and must reach the dialer below the cache unchanged.
+// Same probe technique as above: a recording dial function that fails at once; nothing touches the network
+// (the Go resolver answers an empty name and an IP literal without a query).
+func init() {
+	scenarios["hostless-C18"] = func(t *testing.T, cfg *simrt.Config) simrt.RunFn {
+		return func(tape *simrt.Tape, keep bool) simrt.Outcome { return runHostless(tape, keep) }
+	}
+}
+
+func runHostless(tape *simrt.Tape, keep bool) simrt.Outcome {
+	var (
+		log   simrt.EventLog
+		viol  *simrt.Violation
+		stats = map[string]int{}
+	)
+	log.Keep = keep
+	var seen []string
+	probe := func(ctx context.Context, network, addr string) (net.Conn, error) {
+		seen = append(seen, addr)
+		return nil, errProbeDial
+	}
+	tr := &http.Transport{DialContext: probe}
+	ttl := []time.Duration{0, time.Hour, -1}[tape.Choose(3)]
+	opts := []func(*vegeta.Attacker){vegeta.Client(&http.Client{Transport: tr}), vegeta.DNSCaching(ttl)}
+	if tape.Prob(1, 2) {
+		opts = append(opts, vegeta.ConnectTo(map[string][]string{"other.test:80": {"10.9.9.1:8000"}}))
+	}
+	atk := vegeta.NewAttacker(opts...)
+	defer atk.Stop() // ends the refresh goroutine of a positive ttl
+	addr := []string{":80", ":8080", "127.0.0.1:81", "[::1]:82", "10.1.2.3:80"}[tape.Choose(5)]
+	log.Addf("dns-ttl=%v dial %q", ttl, addr)
+	ctx, cancel := context.WithTimeout(context.Background(), 5*time.Second)
+	defer cancel()
+	_, err := tr.DialContext(ctx, "tcp", addr)
+	switch {
+	case len(seen) == 1 && seen[0] == addr:
+		stats["probe.address-without-a-name-passed-through"]++
+	case len(seen) == 0:
+		viol = &simrt.Violation{Prop: "C18", Class: "C18.hostless-not-dialled",
+			Msg: fmt.Sprintf("DNSCaching(%v): a dial to %q, which names no host to look up, never reached the dialer (it ended with: %v)", ttl, addr, err)}
+	default:
+		viol = &simrt.Violation{Prop: "C18", Class: "C18.hostless-wrong-address",
+			Msg: fmt.Sprintf("DNSCaching(%v): a dial to %q reached the dialer as %q", ttl, addr, seen)}
+	}
+	if viol != nil {
+		log.Addf("VIOLATION %s dns-ttl=%v dial %q", viol.Class, ttl, addr) // (the resolver's error text is not part of the canonical log)
+	}
+	return simrt.Outcome{V: viol, LogHash: log.Hash(), LogText: log.Text(), Steps: log.Lines(), Stats: stats, Sig: log.Hash(), NonTriv: true,
+		Sample: map[string]any{"dns_ttl": ttl.String(), "address": addr}}
+}
